@@ -50,6 +50,10 @@ CLAIMS = {
    text="Static decision of one bookkeeping clause of zigzag persistence: on every path of the forward arrow, the surjective reflection diamond and the backward arrow, every creation of a key in births_ is paired with exactly one registration of the same birth in the birth ordering, every erasure with exactly one remove_birth, and every streamed finite interval with the removal of exactly the birth it reports; the diamond orders the available births through the ordering. A birth that is unregistered or stale mis-pairs later diamonds. The interval decomposition itself, and the filtered front-ends' value translation, are not decided.",
    note="Trusted: clang 14 parser; births_[k] = v creates a key while births_.at(k) = v updates one.",
    tech="counting / pairing path rule (E2n) over the clang AST", ref="DESIGN.md 4/C07"),
+ "C09": dict(
+   text="Static decision of structural clauses of the column and base-matrix classes behind 'a general matrix behaves as a dense matrix': the coefficient of multiply_source_and_add reaches every entry whose value is copied from the source (all nine column types and the shared helper); every non-delegating multiply-and-add guards a zero coefficient (return / clear / throw); lazy state stays invisible - Vector_column marks a row erased only if it is stored, every loop over its entries consults the erased set, Heap_column counts every pushed entry; with row access an entry is unlinked before it is destroyed; no container is iterated while it holds destroyed entries; the one-sided arms of the lazy row swap are mirror images; in the column-compressed matrix every column moved into a slot gets that slot as representative index. Contents read back for all operation sequences are not decided.",
+   note="Trusted: clang 14 parser; template patterns; tables/c09.json (four exempt loops with reasons). Four genuine defects found by these rules were repaired in /repo (known_findings.json, fixed).",
+   tech="information-flow, sibling/mirror agreement and typestate path rules over the clang AST (E10, E7, E2)", ref="DESIGN.md 4/C09"),
 }
 
 NA = {
